@@ -381,7 +381,7 @@ Definition run_spec (l obs : list tok) : list tok :=
   match parse_case l with
   | Some (cf, n, ops) =>
       match parse_case_obs ops obs with
-      | Some o => spec_case cf ops o
+      | Some o => spec_case cf n ops o
       | None => fail "obs:unparsable"
       end
   | None => bad_case
